@@ -306,7 +306,9 @@ def _judge_cubic(x_train, grid, cfg, tol=1e-9):
         ins = [i for i in idx if lb <= x[i] <= ub]
         if centred and phase == "fit":
             # stated directly: zero mean of every column on the training data
-            rows = M[idx]
+            # rows of out-of-range training values are missing under 'na' (the materializer drops them): the mean is
+            # then taken over the rows that remain
+            rows = M[ins] if mode == "na" else M[idx]
             if len(rows) and not bool((np.abs(rows.mean(axis=0)) <= 1e-10 * (1 + np.abs(rows).max())).all()):
                 cls = "fit:column-means"
                 if mode in ("zero", "na") and outside(x):
